@@ -376,7 +376,8 @@ SigPut(sg, v) ==
   /\ AnyTime /\ v \in {0, 1}
   /\ \E x \in Suspenders : SigOf[x] = sg
   /\ LET x == CHOOSE y \in Suspenders : SigOf[y] = sg
-     IN S' = [S EXCEPT !.sigv[x] = v, !.cbq = Append(@, <<x, v>>), !.pendRet = Append(@, "sig_put")]
+     IN \* (whether a callback runs at all is decided now: only a subscribed suspender is called)
+        S' = [S EXCEPT !.sigv[x] = v, !.cbq = IF S.sus[x].inst THEN Append(@, <<x, v>>) ELSE @, !.pendRet = Append(@, "sig_put")]
   /\ obs' = SusReq("sig_put", sg, v)
 SusCb ==
   /\ S.cbq # <<>> /\ AnyTime
